@@ -201,12 +201,19 @@ CLAIMS = {
         text="Coq theorems: a layer rebuilt under ANY RNG state and loaded from a saved state that contains the wiring is the saved layer "
              "(same eval function); without the wiring the statement is false (witness); the current source persists the wiring for "
              "every class and connection scheme (introspection translator); in the process model a library saved to p and loaded from p "
-             "computes the saved model from any reachable state. Partial: serialisation and the loader are outside the model. Tied by "
+             "computes the saved model from any reachable state. The persistence code itself (get/set_extra_state, _geometry, "
+             "_load_from_state_dict of LogicDense, the convolutions and the learnable thermometer) is modelled as written (statement-equality "
+             "translator) and proved: every well-formed layer saved and loaded into ANY layer built alike is restored exactly (dense, 2-D/3-D "
+             "conv incl. hand-set index tensors, thermometer incl. the frozen flag); whatever checkpoint is ACCEPTED leaves a well-formed layer "
+             "(wires inside the input, kernel pairs inside the receptive field, own geometry); checkpoints of another geometry are refused. "
+             "dense_load / conv_load are evaluated in the kernel on 40 real, foreign, old-format and tampered checkpoints against "
+             "load_state_dict (decision and installed wiring). Partial: byte-level serialisation and the loader are outside the model. Tied by "
              "two-process histories (seed s1 save, seed s2 + advanced RNG rebuild/load) for five model kinds and four word sizes on a "
              "100-row probe batch.",
         design_ref="DESIGN.md section 6 C15",
-        note="Coq kernel (closed theorems); translators persist.py (introspection) and libio.py; torch.save/load and dlopen trusted.",
-        technique="Rocq/Coq proof on a state model + introspection translator + cross-process differential correspondence",
+        note="Coq kernel (closed theorems); translators persist.py (introspection; statement equality of the persistence methods) and libio.py; "
+             "torch.nn.Module.load_state_dict, torch.save/load and dlopen trusted.",
+        technique="Rocq/Coq proof on a model of the persistence code (round trip, soundness of every accepted load) + statement-equality and introspection translators + kernel-vs-load_state_dict and cross-process differential correspondence",
     ),
     "C16": dict(
         category="proof",
@@ -214,14 +221,21 @@ CLAIMS = {
              "the process model with the save, load and recompile disciplines read from the source (rename into place, private copy on "
              "load, an instance without a model refuses) produces exactly the outputs of the specification 'a call returns the model its "
              "handle was made from; load(p) yields the model most recently saved to p; recompiling saves the instance's own model', and "
-             "never crashes (induction with a refinement relation); the old disciplines are refuted by concrete histories. Partial: the "
-             "loader/mmap semantics are modelled, thread interleavings exercised not proved. Tied by executing histories (fixed dangerous "
+             "never crashes (induction with a refinement relation); the old disciplines are refuted by concrete histories. Concurrent calls: "
+             "an interleaving model (Model/Threads.v: any number of threads, each a list of calls into any of several libraries, one C statement "
+             "per step, stale garbage in `out` and in every declared buffer) with the theorem that for EVERY schedule no thread gets stuck, "
+             "each thread's results are those of its calls made alone (execZ = the eval-mode function by C01/C02), and every schedule that "
+             "gives a thread its turns finishes it - provided the declared buffers are private per thread, which is what the translator reads "
+             "from BUFFER_STORAGE and from every declaration site (`static __thread`); plain `static` buffers are refuted by a concrete "
+             "schedule. Partial: the loader/mmap semantics are modelled; that the C implementation gives thread-local and malloc'd objects "
+             "these semantics is trusted. Tied by executing histories (fixed dangerous "
              "shapes + random, length <= 5/7) in fresh interpreters and comparing every step with the model in the kernel; 2..16 threads "
-             "on same/different handles vs sequential results; compile() on loaded handles; concurrent saves to one path; static-storage scan "
-             "of the emitted text.",
+             "on same/different handles vs sequential results; compile() on loaded handles; concurrent saves to one path; storage class of every "
+             "parsed declaration = BUFFER_STORAGE; Model/Threads.run_schedule evaluated in the kernel on parsed dense and conv programs under "
+             "random schedules vs the real library called alone.",
         design_ref="DESIGN.md section 6 C16",
-        note="Coq kernel (closed theorems); translator libio.py; glibc loader, file system and thread scheduling trusted / exercised.",
-        technique="Rocq/Coq proof (refinement of a state machine to an abstract map spec, induction over histories) + subprocess history correspondence",
+        note="Coq kernel (closed theorems); translators libio.py, storage.py, wrapper.py; glibc loader, file system, TLS implementation trusted / exercised.",
+        technique="Rocq/Coq proof (refinement of a state machine to an abstract map spec by induction over histories; invariant over every schedule of an interleaving model with monotonicity of the C interpreter in the memory) + translators + subprocess history, real-thread and kernel-schedule correspondence",
     ),
     "C17": dict(
         category="proof",
